@@ -439,7 +439,14 @@ func c06ops() []c06op {
 				r.flush(s)
 			}
 			return "ok"
-		}, func(m *refkv, now int64) string { return "ok" }},
+		}, func(m *refkv, now int64) string {
+			if c06persistent {
+				for _, r := range m.recs {
+					r.persisted = true
+				}
+			}
+			return "ok"
+		}},
 		c06op{"CloseAndReopen", func(r *rigT, s string) string {
 			if !strings.HasPrefix(s, "mem/") {
 				r.closeSwamp(s)
@@ -454,8 +461,9 @@ func c06ops() []c06op {
 				m.shell = false
 			}
 			for _, r := range m.recs {
-				r.metaUnknown = r.metaUnknown // unsaved in-memory metadata may or may not survive: stays unspecified
+				r.persisted = true
 			}
+			m.reopened = m.exists()
 			return "ok"
 		}})
 	ops = append(ops, c06op{"Destroy",
@@ -618,9 +626,12 @@ func (m *refkv) canon() string {
 	var b strings.Builder
 	for _, k := range m.sortedKeys() {
 		b.WriteString(m.recs[k].render(k))
-		b.WriteString(";")
+		fmt.Fprintf(&b, " on-disk=%v;", m.recs[k].persisted)
 	}
-	fmt.Fprintf(&b, "shell=%v", m.shell && !m.exists())
+	if !m.exists() {
+		m.reopened = false
+	}
+	fmt.Fprintf(&b, "shell=%v reopened=%v ghosts=%d", m.shell && !m.exists(), m.reopened, len(m.ghost))
 	return b.String()
 }
 
